@@ -427,6 +427,8 @@ class FuncRun:
         self.sub_records: list = []  # (stmt, key deps, value deps, receiver origins) for `x[k] = v`
         self.loop_breaks: List[List[Optional[Env]]] = []
         self.for_stack: List[Tuple[ast.AST, Set[str]]] = []
+        self.dict_literals: Dict[str, List[Tuple[str, ast.AST]]] = {}
+        self._eff_keywords: Dict[int, list] = {}
         self.loop_continues: List[List[Optional[Env]]] = []
         self.param_index = {p.name: p.index for p in f.params}
         self._site_counter = 0
@@ -781,6 +783,20 @@ class FuncRun:
         return None
 
     def st_Assign(self, st, env):
+        for t in st.targets:
+            if isinstance(t, ast.Name):
+                v = st.value
+                lit = None
+                if isinstance(v, ast.Call) and isinstance(v.func, ast.Name) and v.func.id == 'dict' and not v.args and \
+                        all(kw.arg is not None for kw in v.keywords):
+                    lit = [(kw.arg, kw.value) for kw in v.keywords]
+                elif isinstance(v, ast.Dict) and v.keys and all(isinstance(k, ast.Constant) and isinstance(k.value, str)
+                                                               for k in v.keys):
+                    lit = [(k.value, x) for k, x in zip(v.keys, v.values)]
+                if lit is not None:
+                    self.dict_literals[t.id] = lit
+                else:
+                    self.dict_literals.pop(t.id, None)
         val = self.ev(st.value, env)
         for t in st.targets:
             self.assign(t, val, env, st, st.value)
@@ -1692,12 +1708,21 @@ class FuncRun:
         args = [self.ev(a, env) for a in e.args]
         kwargs = {}
         star_kwargs = None
+        eff_keywords = []
         for kw in e.keywords:
+            if kw.arg is None and isinstance(kw.value, ast.Name) and kw.value.id in self.dict_literals:
+                # f(**shared) where shared = dict(a=x, b=y) / {'a': x, 'b': y}: the same as f(a=x, b=y)
+                for k_, vexpr in self.dict_literals[kw.value.id]:
+                    kwargs[k_] = self.ev(vexpr, env)
+                    eff_keywords.append(ast.keyword(arg=k_, value=vexpr))
+                continue
             v = self.ev(kw.value, env)
             if kw.arg is None:
                 star_kwargs = v
             else:
                 kwargs[kw.arg] = v
+            eff_keywords.append(kw)
+        self._eff_keywords[id(e)] = eff_keywords
         has_star = any(isinstance(a, ast.Starred) for a in e.args)
         callee_av = self.ev(fn, env)
         alts = callee_av.callee
@@ -1775,7 +1800,7 @@ class FuncRun:
                     cont = AV(T(('tuple', a.types)), a.origins)
                     bound[va[0].index] = cont if prev is None else prev.join(cont)
             i += 1
-        for kw in e.keywords:
+        for kw in self._eff_keywords.get(id(e), e.keywords):
             if kw.arg is None:
                 continue
             p = f.param(kw.arg)
